@@ -1,12 +1,14 @@
 package checks
 
 import (
+	"context"
 	"fmt"
 	"os"
 	"os/exec"
 	"path/filepath"
 	"sort"
 	"strings"
+	"time"
 
 	"verif/internal/fw"
 	"verif/internal/h"
@@ -169,7 +171,9 @@ func C13(c *fw.Ctx) {
 				return model.Obj([]string{"pz", "nz", "nn", "five", "tx"}, []*model.N{model.Num(0), model.Un("-", model.Num(0)),
 					model.Grp(model.Bin("-", model.Grp(model.Bin("**", model.Num(10), model.Num(400))), model.Grp(model.Bin("**", model.Num(10), model.Num(400))))), model.Num(5), model.Str("t")})
 			}
-			small := func() *model.N { return model.Obj([]string{"pz", "nz"}, []*model.N{model.Num(0), model.Un("-", model.Num(0))}) }
+			small := func() *model.N {
+				return model.Obj([]string{"pz", "nz"}, []*model.N{model.Num(0), model.Un("-", model.Num(0))})
+			}
 			var calls []*model.N
 			switch form {
 			case 0:
@@ -485,11 +489,13 @@ func C13(c *fw.Ctx) {
 			os.WriteFile(p, []byte(ex), 0o644)
 			var firstOut string
 			for k := 0; k < reps; k++ {
-				cmd := exec.Command(cli, p)
+				ctx, cancel := context.WithTimeout(context.Background(), 30*time.Second)
+				cmd := exec.CommandContext(ctx, cli, p)
 				cmd.Stdin = strings.NewReader("abc def\nsecond\n")
 				var so, se strings.Builder
 				cmd.Stdout, cmd.Stderr = &so, &se
 				err := cmd.Run()
+				cancel()
 				st := 0
 				if ee, ok := err.(*exec.ExitError); ok {
 					st = ee.ExitCode()
